@@ -35,7 +35,12 @@ type scenario struct {
 	wantDrops bool // the first generation is expected to be lost involuntarily
 	poke      bool // while the scripted failures last, call Open again and again (must be ErrAlreadyOpen, must not disturb the loop)
 	tightFirst bool // the first generation lives only milliseconds: the gap to the first re-dial is (nearly) the first wait, so its upper bound applies too
-	shrinkT5  time.Duration // >0: UpdateConfigOptions(WithT5(shrinkT5)) after the second failed dial (live shrink during backoff)
+	// live reconfiguration while the loop is retrying: when the liveAt-th dial has been invoked,
+	// UpdateConfigOptions(liveOpt); separations after that dial are judged by postUpper (+1 s) / postLower
+	liveAt    int
+	liveOpt   hsms.ConnOption
+	postUpper time.Duration
+	postLower func(i int) time.Duration
 	body      int  // >0: the driver's data primaries carry an ASCII body of this many characters
 	quiet     bool // send nothing until the scripted generations are gone (a link that shows life is never dropped by linktest)
 }
@@ -113,10 +118,10 @@ func runScenario(c *vh.Ctx, sc scenario) {
 	shrinkDone := false
 	for time.Now().Before(deadline) {
 		inScript := !(r.Dials() > len(sc.plans) && scriptedGone(r, len(sc.plans)))
-		if sc.shrinkT5 > 0 && !shrinkDone && r.Dials() >= 3 {
+		if sc.liveAt > 0 && !shrinkDone && r.Dials() >= sc.liveAt {
 			shrinkDone = true
-			if err := r.Conn.UpdateConfigOptions(hsms.WithT5(sc.shrinkT5)); err != nil {
-				c.Fail("C11: UpdateConfigOptions(WithT5) failed", desc()+": "+err.Error())
+			if err := r.Conn.UpdateConfigOptions(sc.liveOpt); err != nil {
+				c.Fail("C11: UpdateConfigOptions failed", desc()+": "+err.Error())
 			}
 		}
 		if sc.poke && inScript && r.Dials() >= 2 {
@@ -311,8 +316,21 @@ func checkGaps(c *vh.Ctx, r *lc.Rig, sc scenario, evs []lc.Ev) {
 			k = 0
 			prevGap = -1
 		}
-		if sc.shrinkT5 > 0 && i >= 2 {
-			shrunk = true // from here on the live T5 is the smaller one: only the upper bound is judged
+		if sc.liveAt > 0 && i >= sc.liveAt-1 {
+			// the reconfiguration lands while the wait before dial liveAt is in progress (or is just being
+			// computed): that one separation is indeterminate; the later ones obey the NEW configuration
+			shrunk = true
+			if i >= sc.liveAt {
+				g := dials[i+1].T.Sub(dials[i].T)
+				if sc.postUpper > 0 && g > sc.postUpper+time.Second {
+					c.Fail("C11: a live configuration change is ignored by the running reconnect loop (separation exceeds the NEW T5)",
+						fmt.Sprintf("%s dial %d->%d gap_ms=%d new_T5_ms=%d", sc.tag, i, i+1, g.Milliseconds(), sc.postUpper.Milliseconds()))
+				}
+				if sc.postLower != nil && g < sc.postLower(i) {
+					c.Fail("C11: a live configuration change is ignored by the running reconnect loop (separation shorter than the NEW backoff)",
+						fmt.Sprintf("%s dial %d->%d gap_ns=%d want_ns>=%d", sc.tag, i, i+1, g, sc.postLower(i)))
+				}
+			}
 		}
 		gap := dials[i+1].T.Sub(dials[i].T)
 		want := time.Duration(sleeps[k])
@@ -324,10 +342,10 @@ func checkGaps(c *vh.Ctx, r *lc.Rig, sc scenario, evs []lc.Ev) {
 		if tight && !shrunk && gap > want+upSlack+lc.HangCap {
 			c.Fail("C11: re-dial later than the backoff delay plus slack", fmt.Sprintf("%s dial %d->%d sleep_index=%d gap_ms=%d want_ms=%d", sc.tag, i, i+1, k, gap.Milliseconds(), want.Milliseconds()))
 		}
-		if tight && gap > ceil+upSlack+lc.HangCap {
+		if tight && !shrunk && gap > ceil+upSlack+lc.HangCap {
 			c.Fail("C11: separation between connect attempts exceeds T5 (plus slack)", fmt.Sprintf("%s dial %d->%d gap_ms=%d T5_ms=%d", sc.tag, i, i+1, gap.Milliseconds(), ceil.Milliseconds()))
 		}
-		if tight && prevGap >= 0 && sc.shrinkT5 == 0 && gap+upSlack < prevGap {
+		if tight && prevGap >= 0 && sc.liveAt == 0 && gap+upSlack < prevGap {
 			c.Fail("C11: separation between connect attempts decreased (beyond slack)", fmt.Sprintf("%s dial %d->%d gap_ms=%d previous_ms=%d", sc.tag, i, i+1, gap.Milliseconds(), prevGap.Milliseconds()))
 		}
 		if tight {
@@ -566,16 +584,38 @@ func e2ePass(c *vh.Ctx) {
 		cfg.BackoffInit, cfg.T5, cfg.BackoffMult = 4*time.Second, 20*time.Millisecond, 2
 		runScenario(c, scenario{tag: "cold:init>T5", active: true, cfg: cfg, plans: []lc.Plan{lc.Refused(), lc.Refused()}, wantDrops: true, tightFirst: true})
 	}
-	// live T5 shrink during backoff: UpdateConfigOptions(WithT5(8 ms)) while the loop is retrying under
-	// T5 = 40 ms with initial 4 s: every later separation is bounded by the (larger) T5 in effect
+	// live reconfiguration while the loop is retrying (the loop re-reads the configuration every
+	// iteration): (a) T5 shrinks from 5 s to 20 ms after the waits have grown to 800 ms — every later
+	// separation is <= 20 ms (+1 s), an ignored change would give 1600 ms; (b) T5 grows from 20 ms to
+	// 5 s — later waits double again (exact lower bounds); (c) the multiplier changes from 1 to 3.
 	{
-		cfg := e2eCfg()
-		cfg.BackoffInit, cfg.T5, cfg.BackoffMult = 4*time.Second, 40*time.Millisecond, 2
-		plans := []lc.Plan{mk(func(p *lc.Plan) { p.DropAfter = 3 * time.Millisecond })}
-		for i := 0; i < 6; i++ {
-			plans = append(plans, lc.Refused())
+		refused := func(n int) []lc.Plan {
+			plans := []lc.Plan{mk(func(p *lc.Plan) { p.DropAfter = 3 * time.Millisecond })}
+			for i := 0; i < n; i++ {
+				plans = append(plans, lc.Refused())
+			}
+			return plans
 		}
-		runScenario(c, scenario{tag: "run:live-T5-shrink", active: true, cfg: cfg, plans: plans, wantDrops: true, tightFirst: true, shrinkT5: 8 * time.Millisecond})
+		cfg := e2eCfg()
+		cfg.BackoffInit, cfg.T5, cfg.BackoffMult = 100*time.Millisecond, 5*time.Second, 2
+		runScenario(c, scenario{tag: "run:live-T5-shrink", active: true, cfg: cfg, plans: refused(7), wantDrops: true, tightFirst: true, quiet: true,
+			liveAt: 4, liveOpt: hsms.WithT5(20 * time.Millisecond), postUpper: 20 * time.Millisecond})
+		cfg = e2eCfg()
+		cfg.BackoffInit, cfg.T5, cfg.BackoffMult = 10*time.Millisecond, 20*time.Millisecond, 2
+		runScenario(c, scenario{tag: "run:live-T5-grow", active: true, cfg: cfg, plans: refused(7), wantDrops: true, tightFirst: true, quiet: true,
+			liveAt: 3, liveOpt: hsms.WithT5(5 * time.Second),
+			postLower: func(i int) time.Duration { return 20 * time.Millisecond << uint(i-3) }}) // i=4: 40 ms, 5: 80 ms, 6: 160 ms
+		cfg = e2eCfg()
+		cfg.BackoffInit, cfg.T5, cfg.BackoffMult = 10*time.Millisecond, 5*time.Second, 1
+		runScenario(c, scenario{tag: "run:live-multiplier", active: true, cfg: cfg, plans: refused(7), wantDrops: true, tightFirst: true, quiet: true,
+			liveAt: 3, liveOpt: hsms.WithReconnectBackoff(10*time.Millisecond, 3),
+			postLower: func(i int) time.Duration { // i=4: 10 ms, 5: 30 ms, 6: 90 ms
+				d := 10 * time.Millisecond
+				for k := 4; k < i; k++ {
+					d *= 3
+				}
+				return d
+			}})
 	}
 	// --- E: Close during the backoff sleep: returns promptly and nothing dials afterwards ---
 	for _, active := range []bool{true} {
